@@ -55,6 +55,10 @@ MUTANTS = [
     if (!state.has_descent(descent))""",
          new="""    state.update(state.x());
     if (!state.has_descent(descent))"""),
+    dict(property="C07", name="get-refuses-only-positive-dg", rule="R-C07-2", file="src/lsearchk.cpp",
+         old="    if (!state.has_descent(descent))", new="    if (const auto dg0 = state.dg(descent); dg0 > 0.0)"),
+    dict(property="C07", name="has-descent-non-strict", rule="R-C07-2", file="include/nano/solver/state.h", tu="src/lsearchk.cpp",
+         old="bool has_descent(const vector_t& descent) const { return dg(descent) < 0.0; }", new="bool has_descent(const vector_t& descent) const { return dg(descent) <= 0.0; }"),
     dict(property="C07", name="morethuente-return-other-step", rule="R-C07-3", file="src/lsearchk/morethuente.cpp",
          old="""        if (f <= ftest && std::fabs(g) <= gtol * (-ginit))
         {
@@ -439,9 +443,58 @@ private:"""),
          old="std::sqrt(std::max(0.0, (stats.m_stdev(i) - stats.m_mean(i) * stats.m_mean(i) / dN) / (dN - 1.0)));",
          new="std::sqrt((stats.m_stdev(i) - stats.m_mean(i) * stats.m_mean(i) / dN) / (dN - 1.0));"),
     dict(property="C14", name="single-sample-enters-variance", rule="R-C14-6", file="src/dataset/stats.cpp",
-         old="if (const auto N = stats.m_samples(i); N > 1)", new="if (const auto N = stats.m_samples(i); N > 0)"),]
+         old="if (const auto N = stats.m_samples(i); N > 1)", new="if (const auto N = stats.m_samples(i); N > 0)"),    # ---- C11
+    dict(property="C11", name="patience-off-by-one", rule="R-C11-1", file="src/gboost/early_stopping.cpp",
+         old="else if (wlearners.size() < m_round + patience)", new="else if (wlearners.size() <= m_round + patience)"),
+    dict(property="C11", name="improvement-without-epsilon", rule="R-C11-1", file="src/gboost/early_stopping.cpp",
+         old="else if (valid_value < m_value - epsilon || valid_samples.size() == 0)", new="else if (valid_value < m_value || valid_samples.size() == 0)"),
+    dict(property="C11", name="improvement-forgets-values", rule="R-C11-1", file="src/gboost/early_stopping.cpp",
+         old="""    else if (valid_value < m_value - epsilon || valid_samples.size() == 0)
+    {
+        m_value  = valid_value;
+        m_round  = wlearners.size();
+        m_values = errors_losses;""", new="""    else if (valid_value < m_value - epsilon || valid_samples.size() == 0)
+    {
+        m_value  = valid_value;
+        m_round  = wlearners.size();"""),
+    dict(property="C11", name="records-train-value", rule="R-C11-2", file="src/gboost/early_stopping.cpp",
+         old="""    else if (valid_value < m_value - epsilon || valid_samples.size() == 0)
+    {
+        m_value  = valid_value;""", new="""    else if (valid_value < m_value - epsilon || valid_samples.size() == 0)
+    {
+        m_value  = train_value;"""),
+    dict(property="C11", name="trim-keeps-one-more", rule="R-C11-3", file="src/gboost/model.cpp",
+         old="result.done(static_cast<tensor_size_t>(optimum.round()));", new="result.done(static_cast<tensor_size_t>(optimum.round()) + 1);"),
+    dict(property="C11", name="result-done-erase-off-by-one", rule="R-C11-3", file="src/gboost/result.cpp",
+         old="m_wlearners.erase(m_wlearners.begin() + optimum_round, m_wlearners.end());", new="m_wlearners.erase(m_wlearners.begin() + optimum_round + 1, m_wlearners.end());"),
+    dict(property="C11", name="monitor-before-evaluate", rule="R-C11-3", file="src/gboost/model.cpp",
+         old="""        outputs.vector() += woutputs.vector();
+        ::nano::gboost::evaluate(targets_iterator, loss, outputs, values);
+        result.update(round + 1, shrinkage_ratio, gstate, std::move(best_wlearner));""",
+         new="""        outputs.vector() += woutputs.vector();
+        result.update(round + 1, shrinkage_ratio, gstate, std::move(best_wlearner));
+        ::nano::gboost::evaluate(targets_iterator, loss, outputs, values);"""),
+    dict(property="C11", name="returned-values-swapped", rule="R-C11-3", file="src/gboost/model.cpp",
+         old="""    return std::make_tuple(std::move(result), selected(optimum.values(), train_samples),
+                           selected(optimum.values(), valid_samples));""",
+         new="""    return std::make_tuple(std::move(result), selected(optimum.values(), valid_samples),
+                           selected(optimum.values(), train_samples));"""),
+    dict(property="C11", name="learners-not-averaged", rule="R-C11-4", file="src/gboost/model.cpp",
+         old="        const auto vdenom = make_vector<scalar_t>(denom);", new="        const auto vdenom = make_vector<scalar_t>(1.0);"),
+    dict(property="C11", name="fold-loop-skips-first", rule="R-C11-4", file="src/gboost/model.cpp",
+         old="        for (tensor_size_t fold = 0; fold < folds; ++fold)\n        {\n            const auto* const pgboost", new="        for (tensor_size_t fold = 1; fold < folds; ++fold)\n        {\n            const auto* const pgboost"),
+    dict(property="C11", name="extra-slot-transposed", rule="R-C11-5", file="src/machine/result.cpp",
+         old="""    return m_extras[static_cast<size_t>(trial * folds() + fold)];""", new="""    return m_extras[static_cast<size_t>(fold * trials() + trial)];"""),
+    dict(property="C11", name="stats-split-index-flipped", rule="R-C11-5", file="src/machine/result.cpp",
+         old="const auto isplit = split == split_type::train ? 0 : 1;", new="const auto isplit = split == split_type::train ? 1 : 0;"),
+    dict(property="C11", name="store-valid-losses-in-errors-slot", rule="R-C11-5", file="src/machine/result.cpp",
+         old="store_stats(valid_errors_losses.tensor(1), m_values.tensor(trial, fold, 1, 1));", new="store_stats(valid_errors_losses.tensor(1), m_values.tensor(trial, fold, 1, 0));"),
+    dict(property="C11", name="load-stats-mean-stdev-swapped", rule="R-C11-6", file="src/machine/stats.cpp",
+         old="        stats(0), stats(1), stats(2), stats(3), stats(4),  stats(5),", new="        stats(1), stats(0), stats(2), stats(3), stats(4),  stats(5),"),]
 
 BENIGN = [
+    dict(property="C07", name="get-descent-test-inlined", file="src/lsearchk.cpp",
+         old="    if (!state.has_descent(descent))", new="    if (const auto dg0 = state.dg(descent); !(dg0 < 0.0))"),
     dict(property="C07", name="lemarechal-swap-operands", file="src/lsearchk/lemarechal.cpp",
          old="if (R.t < epsilon0<scalar_t>())", new="if (epsilon0<scalar_t>() > R.t)"),
     dict(property="C07", name="backtrack-rename-and-temp", file="src/lsearchk/backtrack.cpp",
@@ -508,4 +561,21 @@ BENIGN = [
     dict(property="C14", name="variance-abs-instead-of-max", file="src/dataset/stats.cpp",
          old="std::sqrt(std::max(0.0, (stats.m_stdev(i) - stats.m_mean(i) * stats.m_mean(i) / dN) / (dN - 1.0)));",
          new="std::sqrt(std::fabs((stats.m_stdev(i) - stats.m_mean(i) * stats.m_mean(i) / dN) / (dN - 1.0)));"),
+    dict(property="C11", name="early-stopping-reordered-equivalent", file="src/gboost/early_stopping.cpp",
+         old="""    // no significant improvement, but can wait a bit more
+    else if (wlearners.size() < m_round + patience)
+    {
+        return false;
+    }
+
+    // no significant improvement in awhile, stop
+    else
+    {
+        return true;
+    }""", new="""    else
+    {
+        return !(m_round + patience > wlearners.size());
+    }"""),
+    dict(property="C11", name="early-stopping-merged-condition", file="src/gboost/early_stopping.cpp",
+         old="else if (valid_value < m_value - epsilon || valid_samples.size() == 0)", new="else if (valid_samples.size() == 0 || valid_value + epsilon < m_value)"),
 ]
